@@ -117,7 +117,7 @@ func runC20(r *Run) {
 			if m {
 				recv := ff.TB.Of(core.CallArgs(c.Common())[0])
 				arg := ff.TB.Of(core.CallArgs(c.Common())[1])
-				ok = core.MatchTerm("Version.TransactionProcessor(Client.Get(_, ?t.ProtocolVersion))", recv, b) && strings.Contains(arg.String(), b["t"].String())
+				ok = matchTermVia(at, "Version.TransactionProcessor(Client.Get(_, ?t.ProtocolVersion))", recv, b) && strings.Contains(arg.String(), b["t"].String())
 			}
 		}
 		r.R.Check(ok, P+".version.thread.observer", "E13: each transaction is handed to the transaction processor of protocol.Get(txn.ProtocolVersion) for txn.Namespace", core.FuncName(f), r.where(f), why, "as prescribed", "processor not selected by the transaction's own version")
